@@ -40,7 +40,9 @@ pub static POOL_OVER: AtomicUsize = AtomicUsize::new(0);
 pub static POOL_PEAK: AtomicUsize = AtomicUsize::new(0);
 pub static SPAWN_EVENTS: AtomicUsize = AtomicUsize::new(0);
 pub static POOL_EXITS: AtomicUsize = AtomicUsize::new(0);
-pub fn on_exit_event() { POOL_EXITS.fetch_add(1, Ordering::SeqCst); }
+static MONITOR: std::sync::OnceLock<thread::Thread> = std::sync::OnceLock::new();
+pub fn set_monitor_thread() { let _ = MONITOR.set(thread::current()); }
+pub fn on_exit_event() { POOL_EXITS.fetch_add(1, Ordering::SeqCst); if let Some(m) = MONITOR.get() { m.unpark(); } }
 
 #[cfg(feature = "hooks")]
 pub fn live_pool() -> usize { desync::verif::live_pool_threads() }
